@@ -2,6 +2,8 @@
 from mirq import callee, fmt_origin, is_self_field, origin_calls, strip_refs
 from props import net
 
+THOROUGH_CONFIGS = ["default", "blocking", "websocket", "all"]
+
 EXPLANATION = (
     "R9.1: Packet::maybe_verify_version extracted from MIR as a decision table: Err(IncompatibleVersion(x)) iff variant Ver and "
     "insimver != VERSION with x that very field; Ok otherwise; VERSION = 9 by const evaluation. R9.2: in both read loops the gate call "
